@@ -8,6 +8,7 @@ package txfile
 import (
 	"fmt"
 	"sync"
+	"time"
 )
 
 type verifStop struct {
@@ -120,3 +121,8 @@ func verifParam(name string, def int) int {
 	}
 	return def
 }
+
+func verifNative() bool { return true }
+
+// verifNativeSleep gives background goroutines time to reach their blocking point.
+func verifNativeSleep() { time.Sleep(2 * time.Millisecond) }
